@@ -38,7 +38,24 @@ pub fn main(args: &[String]) -> i32 {
         let text: &'static str = Box::leak(uncps(tv).into_boxed_str());
         let obs = guarded(|| -> exmex::ExResult<Value> {
             let wo = Flat::parse_wo_compile(text)?;
+            // step level (hook events): eval of the uncompiled form, compile(), eval of the compiled form
+            let events = |f: &dyn Fn() -> exmex::ExResult<()>| -> exmex::ExResult<Vec<Value>> {
+                exmex::verif::start_recording();
+                let r = f();
+                let ev = exmex::verif::take_events();
+                r?;
+                Ok(ev.iter().filter_map(|e| serde_json::from_str::<Value>(e).ok()).collect())
+            };
+            let reduce_steps = |ev: &[Value]| -> Value {
+                Value::Array(ev.iter().filter(|e| e["ev"] == "reduce").map(|e| json!([e["idx"].as_u64().unwrap_or(0) + 1, e["n1"].as_u64().unwrap_or(0) + 1, e["n2"].as_u64().unwrap_or(0) + 1])).collect())
+            };
+            let vals = |e: &Flat| crate::expr::var_terms(e.var_names());
+            let ev_wo = events(&|| wo.eval(&vals(&wo)).map(|_| ()))?;
+            let co2 = std::cell::RefCell::new(wo.clone());
+            let ev_comp = events(&|| { co2.borrow_mut().compile(); Ok(()) })?;
+            let comp = Value::Array(ev_comp.iter().filter(|e| e["form"] == "flat").map(|e| json!([e["ev"], e["op"].as_u64().unwrap_or(0) + 1, e["node"].as_u64().unwrap_or(0) + 1])).collect());
             let co = Flat::parse(text)?;
+            let ev_co = events(&|| co.eval(&vals(&co)).map(|_| ()))?;
             let de = Deep::parse(text)?;
             let dd: Value = serde_json::from_str(&de.verif_dump()).unwrap_or(json!({}));
             // printed text of the deep form; `@<n>` (Debug of a folded term / constant) is normalised to `@`
@@ -51,14 +68,15 @@ pub fn main(args: &[String]) -> i32 {
                 skip = c == '@';
                 up.push(c);
             }
-            Ok(json!({"flat_wo": flat_shape(&wo.verif_dump()), "flat": flat_shape(&co.verif_dump()), "deep": deep_shape(&dd), "up": crate::term::cps(&up)}))
+            Ok(json!({"flat_wo": flat_shape(&wo.verif_dump()), "flat": flat_shape(&co.verif_dump()), "deep": deep_shape(&dd), "up": crate::term::cps(&up),
+                      "comp": comp, "steps_wo": reduce_steps(&ev_wo), "steps": reduce_steps(&ev_co)}))
         });
         let obs = match obs {
             Ok(Ok(v)) => v,
-            _ => json!({"flat_wo": "failed", "flat": "failed", "deep": "failed", "up": "failed"}),
+            _ => json!({"flat_wo": "failed", "flat": "failed", "deep": "failed", "up": "failed", "comp": "failed", "steps_wo": "failed", "steps": "failed"}),
         };
         let mut diff = vec![];
-        for k in ["flat_wo", "flat", "deep", "up"] {
+        for k in ["flat_wo", "flat", "deep", "up", "comp", "steps_wo", "steps"] {
             if rec.get(k) != obs.get(k) {
                 diff.push(k);
             }
@@ -68,7 +86,7 @@ pub fn main(args: &[String]) -> i32 {
         } else {
             fwd += 1;
             if fwd <= 50 {
-                let _ = writeln!(out, "{}", json!({"text": uncps(tv), "differs": diff, "model": {"flat_wo": rec.get("flat_wo"), "flat": rec.get("flat"), "deep": rec.get("deep"), "up": rec.get("up")}, "code": obs}));
+                let _ = writeln!(out, "{}", json!({"text": uncps(tv), "differs": diff, "model": {"flat_wo": rec.get("flat_wo"), "flat": rec.get("flat"), "deep": rec.get("deep"), "up": rec.get("up"), "comp": rec.get("comp"), "steps_wo": rec.get("steps_wo"), "steps": rec.get("steps")}, "code": obs}));
             }
         }
     });
